@@ -44,6 +44,10 @@ def alphabet() -> List[Tuple[str, bytes, int, bool]]:
         ("r-srv-z", wire.response([("SRV", Z, 0x8001, 120, 0, 0, 9, "hz.local.")]), 5353, False),
         ("r-own", wire.response(svc_records(S1)), 5353, False),  # a cooperating responder multicasts our records
         ("r-flush-a", wire.response([("A", "hy.local.", 0x8001, 120, bytes([10, 0, 0, 10]))]), 5353, False),
+        # datagrams beyond the usual 1460 bytes (a single large record makes them legal up to 8966)
+        ("jumbo-qm-srv", q([("Q", S1.name, 33, 1)], answers=[("TXT", "big._x._tcp.local.", 1, 4500, b"\xfe" + b"k" * 254 + (b"\xff" + b"v" * 255) * 5)]),
+         5353, False),
+        ("jumbo-r-z", wire.response([("PTR", TB, 1, 4500, Z), ("TXT", Z, 0x8001, 4500, (b"\xff" + b"t" * 255) * 6)]), 5353, False),
     ]
     return a
 
